@@ -70,7 +70,8 @@ def _one(prop, t, repo, target_dir):
         return dict(name=name, ok=bool(hit), kind=t['kind'], expected=want, reported=hit[:3] or keys[:3],
                     detail='checker fires on the re-introduced defect' if hit else 'checker did NOT report the expected instance')
     except Exception as e:
-        return dict(name=name, ok=False, detail='self-test error: %r' % (e,))
+        import traceback
+        return dict(name=name, ok=False, detail='self-test error: %r' % (e,), trace=traceback.format_exc()[-1200:])
     finally:
         if d:
             shutil.rmtree(d, ignore_errors=True)
@@ -115,6 +116,12 @@ def run_for(prop, seed=0, repo='/repo', jobs=None):
     try:
         with ThreadPoolExecutor(max_workers=jobs) as ex:
             out = list(ex.map(work, tests))
+        # an infrastructure error (not a verdict) is retried once, sequentially
+        for k, (t, r) in enumerate(zip(tests, out)):
+            if not r.get('ok') and str(r.get('detail', '')).startswith('self-test error'):
+                r2 = work(t)
+                r2['retried_after'] = r.get('detail')
+                out[k] = r2
     finally:
         for td in made:
             shutil.rmtree(td, ignore_errors=True)
